@@ -323,6 +323,17 @@ def _corpus_families(big):
                         "cs": [{"k": "MinimumTrials", "n": n}]}})
         out.append({"factors": [col, size3, mt], "block": {"k": "repeat", "cs": [{"k": "MinimumTrials", "n": 5}],
                     "b": {"k": "cross", "design": [0, 1, 2], "crossing": [0, 2], "rcc": True, "cs": []}}})
+    # a crossed within-trial factor with one source in the crossing and one outside, and an Exclude on a level of the
+    # outside source (RandomGen draws source combinations first and has to reject that level afterwards)
+    xc, xw = _sf(0, ["red", "blue"]), _sf(1, ["red", "blue", "green"])
+    xeq = [0] * 12
+    xeq[1 * 4 + 1] = xeq[2 * 4 + 2] = 1
+    xcon = {"id": 2, "name": "f2", "window": {"deps": [0, 1], "width": 1, "stride": 1, "start": None, "kind": "within"},
+            "levels": [{"name": "con", "w": 1, "table": xeq}, {"name": "inc", "w": 1, "table": [1 - x for x in xeq]}]}
+    out.append({"factors": [xc, xw, xcon], "block": {"k": "cross", "design": [0, 1, 2], "crossing": [0, 2], "rcc": True,
+                "cs": [{"k": "Exclude", "f": 1, "l": 2}]}})
+    out.append({"factors": [xc, xw, xcon], "block": {"k": "cross", "design": [0, 1, 2], "crossing": [2], "rcc": True,
+                "cs": [{"k": "Exclude", "f": 1, "l": 2}, {"k": "MinimumTrials", "n": 3}]}})
     # ... and with the *same* number (2) of completions per level: parity of a four-level source, stretched by MinimumTrials
     num4 = _sf(1, ["1", "2", "3", "4"])
     par = {"id": 2, "name": "f2", "window": {"deps": [1], "width": 1, "stride": 1, "start": None, "kind": "within"},
